@@ -11,11 +11,17 @@
   prune t|f|s <max> <cut|->
   pass <now> <texp> <tbs> <fexp> <fbs> <thist> <fhist>   one complete pass of the service loop (Archive.runPass)
   dl t|s <object>                  download_batch of every snapshot of the history directory
+  read a|s <object> <shard> <n1;n2;..|->   AppTraceLoop / ServerTraceLoop .run(snapshot=True) (Reader.readTrace):
+                                   <shard> = the shard z.path.trace(object) names, n1;n2;.. = what
+                                   get_children(<history>) returned, in that order (must be a permutation of
+                                   the history directory).  Answer: `read st=<ok|ValueError|undecodable>
+                                   out=<ts,source,type,data;..|-> last=<ts,source,type,data|->`
 
   Phase lines answer `st=<ok|cut|ValueError|diverges> w=<writes> ` followed by the state dump.
 -/
 import TmVerif.Base.Proto
 import TmVerif.Archive.Model
+import TmVerif.Archive.Reader
 open TmVerif TmVerif.Proto TmVerif.Archive
 
 abbrev S := St Codec.plain
@@ -88,6 +94,27 @@ def dlAll (s : S) (h : Hist) (obj : Str) : String :=
     | some l => s!"{unstr sn.name}={joinOr "|" (sortStrings (l.map unstr))}"
   joinOr ";" (sortStrings ((s.snaps.filter (fun sn => sn.dir = h)).map one))
 
+def showEvent (e : Event) : String := s!"{unstr e.ts},{unstr e.src},{unstr e.ty},{unstr e.data}"
+
+def showRes (r : Res) : String :=
+  let st := match r.err with
+    | none => "ok"
+    | some .valueError => "ValueError"
+    | some .undecodable => "undecodable"
+  let last := match r.last with
+    | none => "-"
+    | some e => showEvent e
+  s!"read st={st} out={joinOr ";" (r.out.map showEvent)} last={last}"
+
+def readLine (s : S) (r : Root) (obj shard : String) (order : List String) : String :=
+  let names := (s.snaps.filter (fun sn => sn.dir = r.hist)).map (fun sn => unstr sn.name)
+  if sortStrings names != sortStrings order then "bad-order"
+  else
+    let snaps := snapsInOrder s r.hist (order.map str)
+    match r with
+    | .app => showRes (readTrace s (str obj) (str shard) snaps)
+    | .server => showRes (readServerTrace s (str obj) (str shard) snaps)
+
 def stepLine (d : DSt) (ws : List String) : DSt × String :=
   match ws with
   | ["ev", r, shard, name] =>
@@ -133,6 +160,10 @@ def stepLine (d : DSt) (ws : List String) : DSt × String :=
   | ["dl", h, obj] =>
     match parseHist h with
     | some h => (d, dlAll d.cur h (str obj))
+    | none => (d, "bad-op")
+  | ["read", r, obj, shard, order] =>
+    match parseRoot r with
+    | some r => (d, readLine d.cur r obj shard (semi order))
     | none => (d, "bad-op")
   | _ => (d, "bad-op")
 
